@@ -441,3 +441,42 @@ func (w *World) computeSCC() {
 		}
 	}
 }
+
+// implementers: the named types of the module (T or *T) whose method set implements the interface, in a stable order.
+func (w *World) implementers(it *types.Interface) []types.Type {
+	var names []string
+	byName := map[string]types.Type{}
+	for _, pk := range w.Pkgs {
+		sc := pk.Types.Scope()
+		for _, nm := range sc.Names() {
+			tn, ok := sc.Lookup(nm).(*types.TypeName)
+			if !ok || tn.IsAlias() {
+				continue
+			}
+			named, ok := tn.Type().(*types.Named)
+			if !ok {
+				continue
+			}
+			if _, isIface := named.Underlying().(*types.Interface); isIface {
+				continue
+			}
+			var t types.Type
+			if types.Implements(named, it) {
+				t = named
+			} else if p := types.NewPointer(named); types.Implements(p, it) {
+				t = p
+			}
+			if t != nil {
+				k := pk.PkgPath + "." + nm
+				names = append(names, k)
+				byName[k] = t
+			}
+		}
+	}
+	sort.Strings(names)
+	var out []types.Type
+	for _, k := range names {
+		out = append(out, byName[k])
+	}
+	return out
+}
